@@ -18,6 +18,9 @@ type c12Req struct {
 	Seq  byte              `json:"seq"`
 	Req  model.AcctRequest `json:"req"`
 	Trim int               `json:"trim"` // >0: cut that many bytes off the body (undecodable request)
+	// Follow: sent on the session id of the request before it, with the next client sequence number
+	// (the updates of a task); it is judged like any other request
+	Follow bool `json:"follow,omitempty"`
 }
 
 type c12Case struct {
@@ -123,6 +126,10 @@ func genC12(t *rapid.T) c12Case {
 		if rapid.IntRange(0, 9).Draw(t, "truncate") == 0 {
 			r.Trim = rapid.IntRange(1, 12).Draw(t, "trim")
 		}
+		if i > 0 && c.Reqs[i-1].Seq < 250 && rapid.IntRange(0, 2).Draw(t, "follow") == 0 {
+			r.Follow = true
+			r.Seq = c.Reqs[i-1].Seq + 2
+		}
 		c.Reqs = append(c.Reqs, r)
 	}
 	return c
@@ -218,14 +225,20 @@ func runC12(t failer, c c12Case) {
 		t.Fatalf("%v", err)
 	}
 	key := []byte(cfggen.KeyA)
+	session := uint32(0)
 	for i, r := range c.Reqs {
+		if !r.Follow {
+			session = uint32(0x3000 + i)
+		} else {
+			ev.Class("req:follows-on-same-session")
+		}
 		body := r.Req.Encode()
 		if r.Trim > 0 && r.Trim < len(body) {
 			body = body[:len(body)-r.Trim]
 		}
 		env.sink.take()
 		nw := len(d.c.Writes())
-		wire := model.Frame(key, model.Header{Version: 0xc0, Type: model.TypeAcct, Seq: r.Seq, Session: uint32(0x3000 + i)}, body)
+		wire := model.Frame(key, model.Header{Version: 0xc0, Type: model.TypeAcct, Seq: r.Seq, Session: session}, body)
 		pkts, _, closed, err := d.send(wire)
 		if err != nil {
 			t.Fatalf("%v", err)
